@@ -220,7 +220,7 @@ fn cred_fwd(ctx: &Ctx, acc: &Acc, mode: u8, ch: &mut Chooser) {
   let proof_c = fpt(ch, mode, "proof", 2, &[1]);
   let nt_c = fpt(ch, mode, "nonTransferable", 3, &[1, 2]);
   let props_c = fpt(ch, mode, "extra properties", 2, &[1]);
-  let issuer_c = fpt(ch, mode, "issuer", 2, &[1]);
+  let issuer_c = fpt(ch, mode, "issuer", 3, &[1, 2]);
   let subj_c = fpt(ch, mode, "credentialSubject", 5, &[1, 2]);
   let types_c = fpt(ch, mode, "type", 3, &[1]);
   let ctx_c = fpt(ch, mode, "@context", 3, &[1, 2]);
@@ -237,7 +237,13 @@ fn cred_fwd(ctx: &Ctx, acc: &Acc, mode: u8, ch: &mut Chooser) {
     1 => json!(["VerifiableCredential", "UniversityDegreeCredential"]),
     _ => json!(["VerifiableCredential"]),
   });
-  let issuer_json = if issuer_c == 0 { json!(ISSUER) } else { json!({"id": ISSUER, "name": "Example University", "n": {"a": 1}}) };
+  // issuer as URL, as an object with extra members, and as the minimal object carrying nothing but its id
+  // (a shape that a "use the compact form when nothing else is there" shortcut would silently rewrite)
+  let issuer_json = match issuer_c {
+    0 => json!(ISSUER),
+    1 => json!({"id": ISSUER, "name": "Example University", "n": {"a": 1}}),
+    _ => json!({"id": ISSUER}),
+  };
   dm.insert("issuer".into(), issuer_json.clone());
   let (nbf_s, nbf) = [(N1_S, N1), (MIN_S, MIN_TS), (MAX_S, MAX_TS)][nbf_c];
   dm.insert("issuanceDate".into(), json!(nbf_s));
